@@ -364,3 +364,6 @@ CLAIMED["C04"]["text"] += (" Ninth round: container alternatives next to scalar 
 CLAIMED["C15"]["text"] += (" Tenth round: an empty object or array whose or rule wraps a user type in a rule-set is refused by Check like the bare reference (fix 3eabb47; fixed cases).")
 CLAIMED["C18"]["text"] += (" Tenth round: the empty pattern - the token // - is a regex type (fix 2b68297); C18_extract_complete holds for every pattern without an unescaped slash, the empty one included.")
 CLAIMED["C03"]["text"] += (" Tenth round: known finding C03-plain-key-spelled-like-a-key-shortcut (required keys are kept by name only), with corpus cases under a classifier.")
+CLAIMED["C08"]["text"] += (" Eleventh round: a rule-set of nothing but flags that say nothing is refused like {} (fix de3c65c); a null example under nullable next to a type reference or an or list is accepted (fix d925ea9: "
+                           "the checker's list of alternatives mirrors the validator's; model check_links and the spec's type_matches / example_obeys follow).")
+CLAIMED["C09"]["text"] += (" Eleventh round: key-shortcut types that name themselves next to a terminating alternative are accepted (fix 82938c5).")
